@@ -5,7 +5,7 @@ use std::time::Duration;
 
 use super::super::{co_io_result, from_nix_error, IoData};
 #[cfg(feature = "io_cancel")]
-use crate::coroutine_impl::co_cancel_data;
+use crate::coroutine_impl::co_get_handle;
 use crate::coroutine_impl::{is_coroutine, CoroutineImpl, EventSource};
 use crate::io::AsIoData;
 use crate::yield_now::yield_with_io;
@@ -66,9 +66,11 @@ impl<'a> SocketPeek<'a> {
 
 impl EventSource for SocketPeek<'_> {
     fn subscribe(&mut self, co: CoroutineImpl) {
+        // once the coroutine is stored below another thread may resume it; it can then run to
+        // its end and drop the socket, so keep what is used after the store alive on our own
         #[cfg(feature = "io_cancel")]
-        let cancel = co_cancel_data(&co);
-        let io_data = self.io_data;
+        let handle = co_get_handle(&co);
+        let io_data = (*self.io_data).clone();
 
         #[cfg(feature = "io_timeout")]
         if let Some(dur) = self.timeout {
@@ -77,9 +79,6 @@ impl EventSource for SocketPeek<'_> {
                 .add_io_timer(self.io_data, dur);
         }
 
-        // after register the coroutine, it's possible that other thread run it immediately
-        // and cause the process after it invalid, this is kind of user and kernel competition
-        // so we need to delay the drop of the EventSource, that's why _g is here
         io_data.co.store(co);
         // till here the io may be done in other thread
 
@@ -91,8 +90,9 @@ impl EventSource for SocketPeek<'_> {
 
         #[cfg(feature = "io_cancel")]
         {
+            let cancel = handle.get_cancel();
             // register the cancel io data
-            cancel.set_io((*io_data).clone());
+            cancel.set_io(io_data);
             // re-check the cancel status
             if cancel.is_canceled() {
                 unsafe { cancel.cancel() };
